@@ -274,3 +274,27 @@ def check_C12(res, replay):
                     "for k_ijk, compared bit for bit with the model's evaluation of the translated formulas on the translated tables, and with the published equations written "
                     "independently in the harness; plus every parameter of every term of the built force fields of the `build` stream",
                     extra_audit=["OptRs.Model.GenTypes", "OptRs.Calc.Real", "OptRs.Model.BuildUFF"])
+
+
+# ---------------------------------------------------------------------------------------------------- C08
+
+def check_C08(res, replay):
+    res.trusted = TB_COMMON + ["HashSet traversal modelled as traversal of an arbitrary enumeration (List.Perm = all hash seeds)",
+                               "Mathlib (sum over a permutation for the real-valued energy)", "axioms audited: subset of {propext, Classical.choice, Quot.sound}"]
+    res.assumptions = ["'equal to rounding' for energies/gradients: over the reals the sums are equal; in doubles only the summation order differs (checked to 1e-9 relative on the real code)",
+                       "bond-order assignment maps over a Vec collected from the set and is pointwise in each bond; its independence of the order is covered by the build correspondence and the repeated-construction search, not by a theorem",
+                       "the optimised structure is a function of (start, answers) by C05's model, hence of the (order-independent) force field"]
+    L.run_translators(["tables", "terms", "uff"], res)
+    L.prove(["OptRs.Props.C08", "OptRs.Props.C10"], res, BUILD_AUDIT + ["OptRs.Lemmas.FFReal"])
+    L.build_cli(res)
+    if L.build_harness(res) and L.build_model(res):
+        for stream, model, io in (("build", "build", True), ("repro", "-", False)):
+            lines = harness_lines(stream, [], res)
+            if lines is not None:
+                L.compare_lines(lines, model, res, stream, ignore_oracle=io)
+        res.cases += int(res.stats.get("repro.molecules", "0")) * int(res.stats.get("repro.constructions_per_molecule", "0"))
+        res.distinct += int(res.stats.get("repro.with_centre_of_three_or_more_neighbours", "0"))
+    return L.finish(res, "proof", "lake build OptRs.Props.C08 OptRs.Props.C10 + #print axioms audit",
+                    "every molecule of the build stream is constructed once against the deterministic model; library + low-symmetry distorted centres (>= 3 neighbours with "
+                    "pairwise different angles) are constructed 24 (quick) / 64 (thorough) times in one process — each HashSet draws fresh keys — comparing connectivity, assigned "
+                    "types, sorted term lists bit for bit and UFF energy/gradient to 1e-9; the command-line tool is run 4 (quick) / 8 (thorough) times per input comparing opt.xyz bytes")
